@@ -358,6 +358,20 @@ func (w *World) CloseSess(se *Sess) {
 	}
 }
 
+// CloseSessAgain calls Close on a session that has been closed already (callers that close in a
+// defer and on an error path do this; it must stay harmless).
+func (w *World) CloseSessAgain(se *Sess) {
+	if !se.Closed {
+		w.CloseSess(se)
+	}
+	op := w.begin("close-session-again", se.P, se.Part)
+	w.guard(op, func() { op.Err = se.S.Close() })
+	w.end(op)
+	if op.Panic != "" {
+		w.Violate("panic", "panic@"+op.Panic, "a second Session.Close panicked: %s", op.Panic)
+	}
+}
+
 // CloseProc closes every session and the factory (clean shutdown).
 func (w *World) CloseProc(p *Proc) {
 	if p.Dead {
